@@ -402,11 +402,29 @@ def r0_urls(ctx):
     return r, True, None
 
 
+def r45_glue(ctx):
+    """the effects and route families around the path functions, evaluated (rules/routeeval.py)"""
+    from rules import routeeval, absint
+    r4 = Rule("C14.R4", "the effects keep URL and context locale together, rewriting from the locale that was in the URL",
+              "`switching from locale A to locale B rewrites only that prefix ... and switching back yields the original URL`: the effects decide "
+              "which locale is A (the one in the URL) and which is B when they call the rewrite; passing the wrong one, or navigating when URL and "
+              "context already agree, changes another prefix than the one in the URL", floor=1)
+    r5 = Rule("C14.R5", "route families: a locale is read from a whole first segment; each family uses its own locale's segments",
+              "`a locale is read from a URL only when the first path segment after the base path equals a locale name exactly` - the N+1 route "
+              "families (one per locale prefix, one unprefixed for the default) are how that is decided for routing", floor=1)
+    for r, f in ((r4, routeeval.check_effects), (r5, routeeval.check_families)):
+        try:
+            f(ctx, r)
+        except absint.Unknown as u:
+            r.viol(r.id.split(".")[1] + ":undecided", "the evaluation cannot interpret the current code (%s): not decided on this tree (fail closed)" % str(u)[:300], file=F)
+    return [r4, r5]
+
+
 def run(ctx):
     r0, ok, why = r0_urls(ctx)
     import os
     if ok and not os.environ.get("VERIF_FORCE_FALLBACK"):
-        return [r0]
+        return [r0] + r45_glue(ctx)
     # a construct outside rules/absint.py: fall back to the structural clauses on the same functions
     prog = ctx.mir("main")
     rules = [r1_whole_segment(ctx, prog), r2_rewrite(ctx), r3_segments(ctx)]
@@ -414,7 +432,7 @@ def run(ctx):
         r0.inst("evaluation not available", "fallback to structural rules R1-R3: %s" % str(why)[:160])
         r0.viol("R0:undecided", "the evaluation cannot interpret the current code (%s): the clauses it decides are NOT decided on this tree; the structural rules reported alongside only cover part of them (fail closed)" % str(why)[:300])
         r0.floor = 1
-    return [r0] + rules
+    return [r0] + rules + r45_glue(ctx)
 
 
 MANIFEST_ENTRY = {
